@@ -32,15 +32,23 @@ Definition policy_in_force (x : input) : policy :=
 Definition has (pol : policy) (k : string) (s : section) : Prop := assoc k pol = Some (Some s).
 Definition lacks (pol : policy) (k : string) : Prop := assoc k pol = None \/ assoc k pol = Some None.
 
+(* a "default" section that says nothing at all is as good as absent *)
+Definition says_something (s : section) : Prop :=
+  s_lifetime s <> None \/ s_nameid_format s <> None \/ s_other s = true.
+Definition silent (s : section) : Prop :=
+  s_lifetime s = None /\ s_nameid_format s = None /\ s_other s = false.
+Definition no_default (pol : policy) : Prop :=
+  lacks pol "default" \/ exists s, has pol "default" s /\ silent s.
+
 (* most specific section: the requester's, else its registration authority's, else "default", else "" *)
 Inductive applicable (pol : policy) (sp : string) (ra : option string) : option section -> Prop :=
 | app_sp s : has pol sp s -> applicable pol sp ra (Some s)
 | app_ra r s : lacks pol sp -> ra = Some r -> has pol r s -> applicable pol sp ra (Some s)
 | app_default s : lacks pol sp -> (forall r, ra = Some r -> lacks pol r) -> has pol "default" s ->
+    says_something s -> applicable pol sp ra (Some s)
+| app_empty s : lacks pol sp -> (forall r, ra = Some r -> lacks pol r) -> no_default pol -> has pol "" s ->
     applicable pol sp ra (Some s)
-| app_empty s : lacks pol sp -> (forall r, ra = Some r -> lacks pol r) -> lacks pol "default" -> has pol "" s ->
-    applicable pol sp ra (Some s)
-| app_none : lacks pol sp -> (forall r, ra = Some r -> lacks pol r) -> lacks pol "default" -> lacks pol "" ->
+| app_none : lacks pol sp -> (forall r, ra = Some r -> lacks pol r) -> no_default pol -> lacks pol "" ->
     applicable pol sp ra None.
 
 (* length of a lifetime in microseconds: timedelta keywords *)
@@ -163,13 +171,19 @@ Definition spec (x : input) (o : outcome) : Prop :=
 Definition present (pol : policy) (k : string) : option section :=
   match assoc k pol with Some (Some s) => Some s | _ => None end.
 
+Definition silent_b (s : section) : bool :=
+  match s_lifetime s, s_nameid_format s, s_other s with None, None, false => true | _, _, _ => false end.
+
 Definition applicable_f (pol : policy) (sp : string) (ra : option string) : option section :=
   match present pol sp with
   | Some s => Some s
   | None =>
       match (match ra with Some r => present pol r | None => None end) with
       | Some s => Some s
-      | None => match present pol "default" with Some s => Some s | None => present pol "" end
+      | None => match present pol "default" with
+                | Some s => if silent_b s then present pol "" else Some s
+                | None => present pol ""
+                end
       end
   end.
 
@@ -235,11 +249,12 @@ Definition store_fresh (x : input) : Prop :=
 (* the request does not move the identifier into another namespace than the requester's own *)
 Definition own_namespace (x : input) : Prop := snq_of x = requester x.
 
-(* the guard under which the name-identifier clause is claimed: outside of it lie exactly the two open
-   findings C09-F1 (format looked up under the SPNameQualifier) and C09-F2 (stored identifier re-used
-   whatever its format) *)
+(* the guard under which the name-identifier clause is claimed: outside of it lies exactly the open finding
+   C09-F2 (no identifier supplied, no Format requested, and the store holds an identifier of that user for the
+   qualifier in force: it is re-used whatever its format).  C09-F1 (format looked up under the SPNameQualifier)
+   was repaired by d41562bb and is no longer excluded. *)
 Definition guard (x : input) : Prop :=
-  requester x <> "" /\ store_fresh x /\ (requested_format x <> None \/ own_namespace x).
+  a_name_id (arg x) <> None \/ requested_format x <> None \/ store_fresh x.
 
 (* ------------------------------------------------------------ end to end *)
 (* the receiving service provider is built from the same metadata, has sent the request, wants no more
@@ -268,3 +283,43 @@ Definition slack (s : spside) : Z := match sp_atd s with Some z => z | None => 0
 Definition clock_within (s : spside) (r : issued) : Prop :=
   (0 <= slack s /\ r_issue_instant r <= sp_now s /\ sp_now s <= i_nooa_cond r
    /\ sp_now s - r_issue_instant r <= 86400)%Z.
+
+(* ------------------------------------------------------------ end to end, boolean *)
+Definition is_ep (d b : string) (e : C04.Model.epspec) : bool :=
+  match e with C04.Model.EP u b' => String.eqb u d && String.eqb b' b | C04.Model.Bare _ => false end.
+
+Definition plain_call_b (x : input) : bool :=
+  match a_issuer (arg x) with None => true | Some i => String.eqb i "" end
+  && negb (some_b (a_farg (arg x)))
+  && match a_authn (arg x) with Some (Some c, None) => negb (String.eqb c "") | _ => false end.
+
+Definition demands_met_b (s : spside) (r : issued) : bool :=
+  implb (in_force01 (sp_wr s) true) (some_b (s_response r))
+  && implb (in_force01 (sp_wa s) false) (some_b (s_assertion r))
+  && implb (in_force01 (sp_wor s) false) (some_b (s_response r) || some_b (s_assertion r)).
+
+Definition clock_within_b (s : spside) (r : issued) : bool :=
+  ((0 <=? slack s) && (r_issue_instant r <=? sp_now s) && (sp_now s <=? i_nooa_cond r)
+   && (sp_now s - r_issue_instant r <=? 86400))%Z.
+
+(* Some ctx = all hypotheses of the end-to-end clause hold and ctx is the context stored with the request *)
+Definition e2e_hyp_b (x : input) (s : spside) (r : issued) : option string :=
+  let d := a_destination (arg x) in
+  if String.eqb (sp_me s) (requester x) && String.eqb (sp_idp s) (c_entityid (cfg x))
+     && negb (String.eqb (requester x) "") && no_outer_ws (requester x)
+     && negb (String.eqb d "") && existsb (is_ep d (sp_binding s)) (sp_specs s)
+     && plain_call_b x && demands_met_b s r && clock_within_b s r
+  then match a_in_response_to (arg x) with Some i => assoc i (sp_outstanding s) | None => None end
+  else None.
+
+(* the identity the service provider must report: the released attributes, the expiry, the stored context *)
+Definition e2e_b (x : input) (s : spside) (r : issued) (so : option (attrs * Z * option string)) : bool :=
+  match e2e_hyp_b x s r with
+  | Some ctx =>
+      match so with
+      | Some (av, nooa, cf) =>
+          attrs_eqb av (a_identity (arg x)) && (nooa =? i_nooa_cond r)%Z && opt_eqb String.eqb cf (Some ctx)
+      | None => false
+      end
+  | None => true
+  end.
